@@ -10,6 +10,7 @@ import M4riProofs.GenTie
 import M4riProofs.GenTieMem
 import M4riProofs.GenTieSlice
 import M4riProofs.GenTieMove
+import M4riProofs.GenTieIo
 namespace M4ri.Props.C08
 open M4ri M4ri.Mzd
 
@@ -132,5 +133,10 @@ theorem transpose_involutive (B : BMat) (h : B.WF) : B.transpose.transpose = B :
 #check @M4ri.GenTieMove.mzdSubmatrix_unaligned_eq
 #check @M4ri.GenTieMove.mzdConcat_eq
 #check @M4ri.GenTieMove.mzdStack_eq
+
+
+/-! ### tie to the C text: `mzd_from_str` (fresh matrix, `mzd_write_bit` per character) = the model `fromStr` for every string, signed or unsigned
+    `char`; `mzd_set_ui` for every value (GenTieIo.lean) -/
+#check @M4ri.GenTieIo.mzdSetUi_eq
 
 end M4ri.Props.C08
